@@ -2903,6 +2903,12 @@ func builtinMul(env *LEnv, v *LVal) *LVal {
 			return env.Errorf("argument is not a number: %v", c.Type)
 		}
 	}
+	if numericListType(v.Cells) != LInt {
+		// A float anywhere makes the whole product a float product, as for +
+		// and -: an int prefix must not be multiplied (and wrapped) as ints
+		// first.
+		return mulFloat(Int(1), v)
+	}
 	return mulInt(Int(1), v)
 }
 
